@@ -13,17 +13,18 @@ import (
 // subset E of the env-backed options. The same application and command line run in both.
 
 type c12Case struct {
-	DS     *DeclSet
-	Spec   string
-	HasDD  bool
-	Argv   []string
-	ArgvB  []string // world B's command line (differs from Argv only in the required-satisfied mode)
-	EnvB   EnvState
-	PreB   []string  // world B: a command line the same application object rejects first (it writes the option, then an undeclared one)
-	After  *EnvState // world B: the environment the host program installs after the declarations (must not matter)
-	Mode   string
-	Typed  bool
-	Target string // required-satisfied: the option removed from the command line
+	DS      *DeclSet
+	Spec    string
+	HasDD   bool
+	Argv    []string
+	ArgvB   []string // world B's command line (differs from Argv only in the required-satisfied mode)
+	EnvB    EnvState
+	PreConv bool      // the first invocation is rejected by a type conversion, not by a spec mismatch
+	PreB    []string  // world B: a command line the same application object rejects first (it writes the option, then an undeclared one)
+	After   *EnvState // world B: the environment the host program installs after the declarations (must not matter)
+	Mode    string
+	Typed   bool
+	Target  string // required-satisfied: the option removed from the command line
 }
 
 func (c *c12Case) Describe() interface{} {
@@ -62,6 +63,9 @@ func (c12Prop) Phases(tier string) []PhaseCfg {
 }
 
 func (c12Prop) Gen(t *Tape, ph *PhaseCfg) Case {
+	if t.Draw(300) == 0 {
+		return genManyOptionalEnv(t)
+	}
 	c := &c12Case{}
 	mode := t.Weighted(5, 3, 2)
 	// Typed containers make a second failure mode possible (a token re-read as a typed value in another
@@ -165,6 +169,16 @@ func (c12Prop) Gen(t *Tape, ph *PhaseCfg) Case {
 					if t.Draw(2) == 0 {
 						// history: before that, the same object rejects the full command line preceded by an undeclared option
 						c.PreB = rejectedVariant(append([]string{"app"}, s.toks...))
+						if ek := elemKind(o.decl.Kind); ek != KString && t.Draw(2) == 0 {
+							// or: the same command line with a value its own type refuses (the option keeps its environment value)
+							name, _ := optNames(o.decl)
+							if name == "" {
+								_, name = optNames(o.decl)
+							}
+							pre := append(append([]string{"app"}, s.toks[:o.from]...), name+"=zz")
+							c.PreB = append(pre, s.toks[o.to:]...)
+							c.PreConv = true
+						}
 					}
 				}
 			}
@@ -220,6 +234,7 @@ func inFold(n *specNode, d *Decl) bool {
 
 var envAfter *EnvState
 var preArgv []string
+var preConv bool
 
 type worldRun struct {
 	p        *Proc
@@ -263,7 +278,7 @@ func runWorldBudget(ds *DeclSet, spec string, argv []string, env EnvState, budge
 		}
 		if preArgv != nil {
 			err := inst.Cli.Run(preArgv)
-			preBad = err == nil || len(p.Events) != 0 || err.Error() != specMismatchText()
+			preBad = err == nil || len(p.Events) != 0 || (err.Error() != specMismatchText()) != preConv
 			p.Events = nil
 			inst.ActionSnap = nil
 		}
@@ -301,7 +316,7 @@ func (c12Prop) Exec(cc Case, st *Stats) *Violation {
 	}
 	st.Count("world_A_accepts")
 	st.Nontrivial(fnv64(fmt.Sprintf("%s|%q|%v", c.Spec, c.ArgvB, c.EnvB.Describe())))
-	preArgv = c.PreB
+	preArgv, preConv = c.PreB, c.PreConv
 	b := runWorldAfter(c.DS, c.Spec, c.ArgvB, c.EnvB, c.After)
 	preArgv = nil
 	if c.PreB != nil {
@@ -380,4 +395,27 @@ func rejectedVariant(argv []string) []string {
 		}
 	}
 	return append(append([]string{}, argv...), "--not-declared-anywhere")
+}
+
+// genManyOptionalEnv: 12..16 individually listed optional options, all backed by set variables, in front of the
+// longer of two alternatives; the command line only fits the shorter one. Every env-backed option doubles the
+// paths the matcher walks before it gets there: slow is allowed, rejecting is not.
+func genManyOptionalEnv(t *Tape) *c12Case {
+	c := &c12Case{Mode: "general"}
+	ds := &DeclSet{}
+	n := 12 + t.Draw(5)
+	spec := "[-a] (("
+	ds.Opts = append(ds.Opts, &Decl{Name: "a", Kind: KString})
+	for i := 0; i < n; i++ {
+		name := string(rune('b' + i))
+		ds.Opts = append(ds.Opts, &Decl{Name: name, Kind: KString, EnvVars: []int{i % envPool}})
+		spec += "[-" + name + "] "
+	}
+	ds.Args = []*Decl{{IsArg: true, Name: "SRC", Kind: KString}, {IsArg: true, Name: "DST", Kind: KString}}
+	spec += "SRC DST) | SRC)"
+	c.DS, c.Spec = ds, spec
+	c.Argv = []string{"app", "-a", "1", "src"}
+	c.ArgvB = c.Argv
+	c.EnvB = envFor(t, ds.Opts, func(d *Decl) bool { return true })
+	return c
 }
